@@ -236,7 +236,7 @@ def execute(plan, prop, out, tr):
         for b in range(B):
             Rg = np.stack([refmath.quat_to_R(q) for q in rot[b]])
             qn = np.abs(np.linalg.norm(rot[b], axis=-1) - 1).max()
-            if qn > tol:
+            if not (qn <= tol):
                 raise Violation("C16.state", "%s: rotation output not unit (|q|-1 = %.3e)" % (tag, qn), step, "unit")
             best = None
             for conv, (Rr, vr, pr) in refs[b].items():
@@ -247,7 +247,7 @@ def execute(plan, prop, out, tr):
                     best = (e, conv)
             if worst is None or best[0] > worst[0]:
                 worst = best
-        if worst[0] > tol:
+        if not (worst[0] <= tol):
             raise Violation("C16.state", "%s: frames %d..%d deviate from the sequential recursion by %.3e (tolerance "
                             "%.3e, F=%d, B=%d, %s)" % (tag, lo, hi, worst[0], tol, F, B, c["dtype"]), step,
                             "state:" + tag.split("#")[0])
@@ -310,7 +310,7 @@ def execute(plan, prop, out, tr):
             if key == "rot":
                 sgn = torch.sign((cat * ref).sum(-1, keepdim=True)); cat = cat * sgn
             err = ((cat - ref).abs().amax() / (1 + ref.abs().amax())).item()
-            if err > tol:
+            if not (err <= tol):
                 raise Violation("C16.chunk", "'%s' differs by %.3e between one call and %d chunks (cuts %s; tolerance "
                                 "%.3e)" % (key, err, len(chunks), cuts[:10], tol), 0, "chunk:" + key)
         out.sigs.add("F%d|c%d|one%s" % (min(F, 64), min(len(chunks), 8), any(b - a == 1 for a, b in chunks)))
